@@ -7,7 +7,9 @@ quiescence and its virtual duration is within its documented bound; (2) whatever
 it raises is an APIConnectionError (CancelledError only if the harness cancelled
 that very task); (3) first cause wins – metamorphic: for an immediately effective
 first fault f1 and any later faults f2, the outcome of every operation and the
-stop-callback argument equal those of the run with f1 alone.
+stop-callback argument equal those of the run with f1 alone; and a graceful
+disconnect() that is merely in progress when f1 lands does not change what the
+other waiters observe (kind graceful_then_fatal).
 """
 from __future__ import annotations
 
@@ -56,7 +58,45 @@ def _outcomes(obs) -> dict:
     return out
 
 
+def run_graceful_then_fatal(case):
+    """A graceful disconnect that is merely *in progress* (request sent, not yet answered) is not a fatal
+    cause: the first FATAL cause that follows must still reach every other waiter unchanged.
+    Metamorphic: outcomes of all operations other than the disconnect call itself are equal in
+    base+[f1] and base+[disconnect() at the same instant just before f1, f1]."""
+    base = case["base"]
+    f1 = case["f1"]
+    pre = {"do": case.get("pre", "disconnect"), "at": f1["at"]}
+    one = {**copy.deepcopy(base), "events": list(base.get("events") or []) + [f1]}
+    two = {**copy.deepcopy(base), "events": list(base.get("events") or []) + [pre, f1]}
+    o1 = life.run(one)
+    o2 = life.run(two)
+    for o in (o1, o2):
+        if o.harness_error:
+            raise HarnessError(f"C09: {o.harness_error} in {case}")
+    res = CaseResult()
+    res.violations = life.oracle_c09(o1) + life.oracle_c09(o2)
+    a, b = _outcomes(o1), _outcomes(o2)
+    n0 = len(base.get("events") or [])
+    res.info = {"f1_alone": a, "with_disconnect_in_progress": b}
+    if any(s.startswith(f"{n0}:") for s in o1.skipped) or any(s.startswith(f"{n0 + 1}:") for s in o2.skipped):
+        res.classes = ["graceful_then_fatal", "f1_skipped"]
+        return res
+    # the disconnect must really be in progress when f1 lands: no CLOSED before f1's delivery in run two
+    for k in a:
+        if k == "__on_stop__" or k.startswith(("disconnect", "force", "final")):
+            continue
+        if k in b and a[k] != b[k] and a[k] != "ok":
+            res.violations.append(Violation(
+                ID, f"c09:first-cause-masked-by-pending-disconnect:{'+'.join(f1.get('frames', [f1['do']]))}:{k}:{a[k]}->{b[k]}",
+                f"stage={case.get('stage')}: fatal fault alone gives {k} -> {a[k]}; with a disconnect() merely in progress -> {b[k]}"))
+    res.classes = sorted(classify(o2, two) | {"graceful_then_fatal"})
+    res.nontrivial = "fault_while_op_pending" in res.classes
+    return res
+
+
 def run_case(case):
+    if case.get("kind") == "graceful_then_fatal":
+        return run_graceful_then_fatal(case)
     if case.get("kind") != "first_cause":
         res = run_with(ID, case)
         res.nontrivial = "fault_while_op_pending" in res.classes
@@ -170,6 +210,11 @@ def _first_cause_cases(tier):
                     f2s += [{"f2_trailer": tr} for tr in (["garbage"], ["reqenc"], ["discreq"], ["badproto"], ["state"], ["state", "garbage"])]
                 for extra in f2s:
                     yield {"kind": "first_cause", "stage": stage, "base": b, "f1": f1, **extra}
+                if stage != "idle":
+                    yield {"kind": "graceful_then_fatal", "stage": stage, "base": b, "f1": f1}
+            for stage, t1, base in (("hello-pending", 18 if not noise else 22, {"auto": True, "latency": 8}), ("request-pending", 80, {"latency": 64})):
+                b = {"noise": noise, "login": True, "flow": "full", "K": 8.0, "final_at": 200.0, **base}
+                yield {"kind": "graceful_then_fatal", "stage": stage, "base": b, "f1": {"do": "reset", "at": t1}}
 
 
 @st.composite
@@ -193,7 +238,7 @@ def _first_cause_random(draw, tier):
     for _ in range(draw(st.integers(0, 2))):
         act = draw(
             st.sampled_from(
-                [{"do": "eof"}, {"do": "reset"}, {"do": "disconnect"}, {"do": "force"}, {"do": "writefail_raise"},
+                [{"do": "eof"}, {"do": "reset"}, {"do": "disconnect"}, {"do": "force"}, {"do": "writefail_raise"}, {"do": "writefail_raise_rt"},
                  {"do": "chunk", "frames": ["garbage"]}, {"do": "chunk", "frames": ["reqenc"]}, {"do": "chunk", "frames": ["discreq"]}]
             )
         )
@@ -202,8 +247,17 @@ def _first_cause_random(draw, tier):
     return case
 
 
+@st.composite
+def _graceful_then_fatal_random(draw, tier):
+    c = draw(_first_cause_random(tier))
+    f1 = c["f1"]
+    if draw(st.integers(0, 3)) == 0:
+        f1 = {"do": "reset", "at": f1["at"]}
+    return {"kind": "graceful_then_fatal", "stage": "random", "base": c["base"], "f1": f1}
+
+
 def strategy(tier):
-    return st.one_of(life.case_strategy(tier), _net_case(tier), _silence_case(tier), _first_cause_random(tier))
+    return st.one_of(life.case_strategy(tier), _net_case(tier), _silence_case(tier), _first_cause_random(tier), _graceful_then_fatal_random(tier))
 
 
 def enumerated(tier):
